@@ -127,7 +127,31 @@ def history(h: Harness, spec, rng):
                 h.count("random_node:non-root" if sym is not g.starting_symbol else "random_node:root")
     # other grammars over the same classes come into being while this one is in use
     from geneticengine.grammar.grammar import extract_grammar
-    guard("usable_grammar", "g.usable_grammar()", lambda: g.usable_grammar())
+    # (for WEIGHTED grammars only when every registered class is reachable from the start symbol: the usable sub-grammar drops
+    # unreachable siblings, and a grammar over other sibling sets re-normalises the class-level weights this grammar reads -- see below)
+    weighted = any(c.weight is not None for c in spec.classes)
+
+    def mentioned(ty):
+        if isinstance(ty, tuple) and ty and ty[0] == "cls":
+            yield ty[1]
+        elif isinstance(ty, tuple):
+            for x in ty[1:]:
+                if isinstance(x, tuple):
+                    yield from mentioned(x)
+    alts0 = {p_: cs for p_, cs in c05.observe(b, g)[0]}
+    reach, todo = {spec.start}, [spec.start]
+    while todo:
+        i = todo.pop()
+        nxt = alts0.get(i, []) if i in alts0 else [j for _, t in spec.classes[i].fields for j in mentioned(t)]
+        for j in nxt:
+            if j not in reach:
+                reach.add(j)
+                todo.append(j)
+    registered = {b.index[t] for t in g.all_nodes if t in b.index}
+    if not weighted or registered <= reach:
+        guard("usable_grammar", "g.usable_grammar()", lambda: g.usable_grammar())
+    else:
+        h.count("usable-grammar-guard-skipped:weighted-grammar-with-unreachable-siblings")
     guard("extract_grammar", "extract_grammar(same classes, other depth mode)", lambda: extract_grammar(b.considered(), b.start, not spec.expansion))
     # (not for weighted grammars: production weights are stored on the classes, so a grammar over OTHER sibling sets re-normalises
     # what this grammar reads -- extracting a different grammar is not one of the operations C10 speaks of; recorded as an observation)
